@@ -100,10 +100,13 @@ def run(ctx):
 
 
 def replay(ctx, payload):
-    case = payload.get("case") or (payload.get("first_disagreement") or {}).get("case")
-    ev = dc.evaluate(case)
-    eqs = dc.compare_with_model(ctx, "replay", [case], [ev])
-    dc.oracle_c01(ctx, "replay", case, ev, eqs[0])
-    return {"impl_error": ev["err"], "post": ev["post"], "impl_eq_model": eqs[0],
-            "disagreements": ctx.disagreements, "oracle_failures": ctx.oracle_failures,
-            "fails": bool(ctx.oracle_failures)}
+    from harness import framework
+    from harness.props import sem_common
+
+    suite, case = framework.replay_target(payload)
+    if case is None:
+        return framework.replay_nothing(payload)
+    if sem_common.is_semantics(suite, case):
+        return sem_common.replay(ctx, case)
+    ev, eq, history = dc.replay_case(ctx, suite or "replay", case, dc.oracle_c01)
+    return framework.replay_result(ctx, impl_error=ev["err"], post=ev["post"], impl_eq_model=eq, history=history)
